@@ -247,6 +247,51 @@ def run(rep: Report, prog: Program, tier: str) -> None:
                  "abandonment / FORWARD-TSN handling never loses or blocks messages of other (reliable) channels (rules C06-WHOLE, C06-RECV)", 100)
 
     # "every message is delivered" needs the retransmission machinery to keep running: shared with C02
+    # ---------------- C01-ALLOC: sequence numbers are handed out atomically - no suspension point between reading a counter and writing it back
+    rep.rule("C01-ALLOC", "_send(): no await between reading the stream sequence number / TSN counter and advancing it", min_instances=2)
+    from engine.events import EventsDomain as _ED
+    snd_f = prog.func("rtcsctptransport.RTCSctpTransport._send")
+    counters = {"_outbound_stream_seq": "stream sequence number", "_local_tsn": "TSN"}
+    torn: List[Any] = []
+    seen_rw = {k: [0, 0] for k in counters}
+
+    def _reads(expr, attr):
+        return any(isinstance(x, ast.Attribute) and x.attr == attr and isinstance(x.ctx, ast.Load) for x in ast.walk(expr))
+
+    body_ = snd_f.node.body
+
+    def _idx_of(pred):
+        return [k for k, st_ in enumerate(body_) if any(pred(x) for x in ast.walk(st_))]
+    for attr, what in counters.items():
+        def is_write(x, attr=attr):
+            if isinstance(x, (ast.Assign, ast.AugAssign, ast.AnnAssign)):
+                tg = x.targets if isinstance(x, ast.Assign) else [x.target]
+                return any(any(isinstance(y, ast.Attribute) and y.attr == attr for y in ast.walk(t)) for t in tg)
+            return False
+
+        def is_read(x, attr=attr):
+            return isinstance(x, ast.Attribute) and x.attr == attr and isinstance(x.ctx, ast.Load)
+        r_idx, w_idx = _idx_of(is_read), _idx_of(is_write)
+        seen_rw[attr] = [len(r_idx), len(w_idx)]
+        if not r_idx or not w_idx:
+            continue
+        first_read, last_write = min(r_idx), max(w_idx)
+        for k, st_ in enumerate(body_):
+            for x in ast.walk(st_):
+                if isinstance(x, ast.Await) and (first_read < k < last_write or (k == last_write and k != first_read and False)):
+                    torn.append((x, attr, what))
+                # an await inside the very statement (loop) that both reads and writes
+                if isinstance(x, ast.Await) and k in r_idx and k in w_idx and first_read == last_write == k:
+                    torn.append((x, attr, what))
+    for attr, what in counters.items():
+        bad_ = [t for t in torn if t[1] == attr]
+        if bad_:
+            node = bad_[0][0]
+            rep.fail(mk_finding(prog, PROP, "C01-ALLOC", snd_f, node, f"_send() suspends at `{unparse(node)[:50]}` after it has read the {what} counter (`{attr}`) and before it has advanced it: a second send() on the "
+                                "same channel that runs during the suspension hands out the same number; messages are then delivered out of order or twice", construct=f"{what} allocation is not atomic"))
+        else:
+            rep.ok("C01-ALLOC", f"_send: {what} read and advanced without a suspension point in between", sample=f"{seen_rw[attr][0]} statement(s) read, {seen_rw[attr][1]} write")
+
     from .sctploop import loop_rule
     loop_rule(rep, prog, PROP, "C01-LOOP", tier)
     import_rules(rep, prog, tier, PROP, "C01-RETX", "C02", ["C02-T3", "C02-KICK", "C02-FS", "C02-REINIT", "C02-HANDSHAKE", "C02-SETUP"],
@@ -317,3 +362,5 @@ def run(rep: Report, prog: Program, tier: str) -> None:
     # ---------------- C01-POLICY (rules/C13life.py): per-channel reliability parameters at the hand-over to _send()
     from .C13life import run_policy
     run_policy(rep, prog, PROP, "C01-POLICY")
+    from .C13life import run_open_first
+    run_open_first(rep, prog, PROP, "C01-OPENFIRST")
